@@ -54,6 +54,23 @@ Theorem C16_marginalize_order_irrelevant : forall (F : OF) tol d rem rem',
 Proof. exact marginalize_order_irrelevant. Qed.
 Print Assumptions C16_marginalize_order_irrelevant.
 
+(* marginalisation preserves total mass: the raw marginal, summed over all retained multi-indices, equals the
+   sum of the whole tensor — every shape of positive sizes, every retained set (given as a mask over the axes) *)
+From QV.Proofs Require Import C16_Marginal.
+Theorem C16_marginal_mass : forall (F : OF) shape ps keep, posn shape ->
+  lsum F (marg_raw F shape ps keep) = lsum F (map (fun k => nth k ps (c0 F)) (seq 0 (prodn shape))).
+Proof. exact marg_raw_mass. Qed.
+Print Assumptions C16_marginal_mass.
+
+(* nat-level layout facts used above: row-major index and digits are mutually inverse on the index box *)
+Theorem C16_rowmajor_digits_nat : forall shape, posn shape ->
+  (forall k, (k < prodn shape)%nat -> in_rangen shape (digitsn shape k) /\ rowmajorn shape (digitsn shape k) = k) /\
+  (forall idx, in_rangen shape idx -> (rowmajorn shape idx < prodn shape)%nat /\ digitsn shape (rowmajorn shape idx) = idx).
+Proof. intros shape H. split.
+  - intros k Hk. split; [now apply digitsn_in_range|now apply rowmajorn_digitsn].
+  - intros idx Hi. split; [now apply rowmajorn_bound|now apply digitsn_rowmajorn]. Qed.
+Print Assumptions C16_rowmajor_digits_nat.
+
 (* non-vacuity over Qc: a 2x2 tensor with a sub-threshold entry is accepted, zeroed and renormalised *)
 Example C16_construct_example :
   let tol := Q2Qc (1 # 100000000) in
